@@ -14,7 +14,7 @@ import shutil
 def _variant(params, r):
     """A' differs from A in exactly one field."""
     p = copy.deepcopy(params)
-    which = r.choice(["metrics", "energy", "size", "bound"])
+    which = r.choice(["metrics", "energy", "size", "bound"] + (["energy", "energy"] if p.get("use_vars") else []))
     if which == "metrics":
         from sim.specgen import METRIC_SETS
         opts = [m for m in METRIC_SETS if m != p["metrics"]]
